@@ -2,7 +2,9 @@
 package bill
 
 import (
+	"github.com/invopop/gobl/cbc"
 	"github.com/invopop/gobl/schema"
+	"github.com/invopop/gobl/tax"
 )
 
 func init() {
@@ -32,3 +34,16 @@ const (
 	ShortSchemaInvoice  = "bill/invoice"
 	ShortSchemaPayment  = "bill/payment"
 )
+
+// supportedTagsFor determines the list of tags that the regime and addons
+// offer for the document schema.
+func supportedTagsFor(r *tax.RegimeDef, addons []*tax.AddonDef, schema string) []cbc.Key {
+	var ts *tax.TagSet
+	if r != nil {
+		ts = ts.Merge(tax.TagSetForSchema(r.Tags, schema))
+	}
+	for _, a := range addons {
+		ts = ts.Merge(tax.TagSetForSchema(a.Tags, schema))
+	}
+	return ts.Keys()
+}
